@@ -9,8 +9,8 @@ package rtreeh
 
 import (
 	"fmt"
-	"os"
 	"math"
+	"os"
 	"sort"
 
 	"github.com/ctessum/geom"
@@ -61,17 +61,17 @@ type stored struct {
 }
 
 type run struct {
-	prop  string
-	t     *tape.Tape
-	log   *core.Log
-	res   *core.Result
-	tree  *rtree.Rtree
-	min   int
-	max   int
-	model []stored
-	dead  []stored // deleted objects (for delete-absent)
-	next  int
-	grid  int // 0 = float coords, else grid size
+	prop                                   string
+	t                                      *tape.Tape
+	log                                    *core.Log
+	res                                    *core.Result
+	tree                                   *rtree.Rtree
+	min                                    int
+	max                                    int
+	model                                  []stored
+	dead                                   []stored // deleted objects (for delete-absent)
+	next                                   int
+	grid                                   int // 0 = float coords, else grid size
 	seenDelete, seenMultiDelete, nnOnMulti bool
 	lastDepth                              int
 	states                                 map[uint64]struct{}
